@@ -55,7 +55,7 @@ func g16NativeAccepts(t g16Triple) (bool, string) {
 func buildG16(c *vh.Check, kind string) *g16Fix {
 	f := &g16Fix{kind: kind}
 	for v := 0; v < 2; v++ {
-		ccs, err := frontend.Compile(innerField, r1cs.NewBuilder, &innerCircuit{variant: v, commit: kind == "commit"})
+		ccs, err := frontend.Compile(innerField, r1cs.NewBuilder, &innerCircuit{variant: v, commit: kind != "nocommit", commit2: kind == "commit2"})
 		if err != nil {
 			c.Fatal("compile inner groth16 circuit: %v", err)
 		}
@@ -79,6 +79,9 @@ func buildG16(c *vh.Check, kind string) *g16Fix {
 	wantC := 0
 	if kind == "commit" {
 		wantC = 1
+	}
+	if kind == "commit2" {
+		wantC = 2
 	}
 	if len(f.vk[0].CommitmentKeys) != wantC || len(f.vk[1].G1.K) != len(f.vk[0].G1.K) {
 		c.Fatal("inner groth16 circuits do not have the intended shape (%d commitments)", len(f.vk[0].CommitmentKeys))
